@@ -172,11 +172,12 @@ class Parser(object):
                 line, pos
             )
 
-    def _is_type_sizer_compatible(self, typename):
+    def _is_type_sizer_compatible(self, typename, seen=()):
         if typename in {type_ + width for type_ in 'ui' for width in ['8', '16', '32', '64']}:
             return True
-        elif typename in self.typedecls and isinstance(self.typedecls[typename], model.Typedef):
-            return self._is_type_sizer_compatible(self.typedecls[typename].type_name)
+        elif (typename in self.typedecls and isinstance(self.typedecls[typename], model.Typedef) and
+              typename not in seen):  # a typedef of an undeclared name may lead back to itself
+            return self._is_type_sizer_compatible(self.typedecls[typename].type_name, seen + (typename,))
         else:
             return False
 
